@@ -10,8 +10,11 @@ from pathlib import Path
 from .core import AnalysisError, Project
 
 VERIF = Path(__file__).resolve().parent.parent
-EVID = VERIF / 'evidence'
-REPLAY = VERIF / 'replay'
+# VERIF_OUT redirects evidence / replay files (used when a scratch copy is analysed instead of /repo,
+# so that the committed evidence always describes /repo itself)
+_OUT = Path(os.environ.get('VERIF_OUT') or VERIF)
+EVID = _OUT / 'evidence'
+REPLAY = _OUT / 'replay'
 KNOWN = VERIF / 'known_findings.json'
 
 
@@ -107,8 +110,8 @@ class Ctx:
             raise AnalysisError(*self.floor_failures[0])
         known = [o for o in self.obligations if o['status'] == 'known']
         okc = sum(1 for o in self.obligations if o['status'] == 'ok')
-        REPLAY.mkdir(exist_ok=True)
-        EVID.mkdir(exist_ok=True)
+        REPLAY.mkdir(parents=True, exist_ok=True)
+        EVID.mkdir(parents=True, exist_ok=True)
         for o in known:
             print(f"KNOWN-FINDING: property={self.prop} rule={o['rule']} {o['function']}: "
                   f"{o['statement'][:100]} -- {o['known'] or o['detail']}")
